@@ -43,7 +43,23 @@ def gen_case(rng):
     if rng.random() < 0.3:
         rulesets.add_odd_alpha(rng, spec)
     gstream.add_prince(rng, spec)
+    r = rng.random()
+    if r < 0.12:
+        spec['encoding'] = 'utf-8-sig'          # a ruleset declared "UTF-8 with BOM": every file starts with a byte-order mark, which is not part of its first value
+    elif r < 0.3:
+        rulesets.legacy_variant(rng, spec)
     return {'kind': 'synthetic', 'spec': spec, 'all_lower': rng.random() < 0.4, 'hseed': rng.getrandbits(32)}
+
+def legacy_prince_case(rng, enc=None):
+    """A ruleset in a legacy code page whose most probable alpha words, once a mask upper-cases them, leave that code page: the unrepresentable words sit in the
+    middle of the PRINCE list, not at its end."""
+    enc = enc or rng.choice(['latin-1', 'cp1251', 'cp1252'])
+    odd = {'latin-1': ['ÿa', 'µm'], 'cp1252': ['µm', 'aµ'], 'cp1251': ['µm', 'µя'], 'utf-8-sig': ['ÿa', 'µя']}[enc]
+    terms = {'A2': [[odd[0], 0.4], ['ab', 0.3], [odd[1], 0.2], ['zz', 0.1]], 'C2': [['UL', 0.4], ['LL', 0.3], ['UU', 0.2], ['LU', 0.1]],
+             'D1': [['1', 0.6], ['7', 0.4]], 'O1': [['!', 0.7], ['.', 0.3]]}
+    spec = {'encoding': enc, 'uuid': 'lprince-%08x' % rng.getrandbits(32), 'base': [['A2D1', 0.6], ['A2', 0.4]], 'prince': [['A2', 0.5], ['D1', 0.3], ['O1', 0.2]],
+            'terms': terms, 'omen': None}
+    return {'kind': 'synthetic', 'spec': spec, 'all_lower': False, 'hseed': rng.getrandbits(32), 'force_cli': True}
 
 def run_prince(path, all_lower, size):
     repo.scratch()
@@ -113,7 +129,7 @@ def check_case(run, case, tier='quick'):
                               observed=got[max(0, n - 2):n + 3], expected=U[max(0, n - 2):n + 1]); return
             run.case(h([case.get('spec', case.get('train')), al, n]) if n in inside else None)
         # ---- CLI: stdout vs -o file, and --size
-        if rng.random() < (0.25 if tier == 'quick' else 0.1):
+        if case.get('force_cli') or rng.random() < (0.25 if tier == 'quick' else 0.1):
             fl = ['--all_lower'] if al else []
             # sizes: none, one of the tried N, the list length itself, a size beyond the list (the run ends because the grammar is exhausted, not because N is reached)
             n = rng.choice([None, rng.choice(Ns), total, total + rng.randint(1, 3), total + rng.randint(1, 3)])
@@ -137,8 +153,20 @@ def check_case(run, case, tier='quick'):
                 if got_stdout != want:
                     run.violation(f'prince_ling.py {sz} stdout differs from the in-process list ({got_stdout.count(chr(10))} vs {want.count(chr(10))} lines)', case,
                                   observed=got_stdout[:150], expected=want[:150]); return
-                if got_file != want:
-                    run.violation(f'prince_ling.py -o FILE {sz}: the file differs from what is written to stdout', case, observed=(got_file or '')[:150], expected=want[:150]); return
+                # the file is written in the encoding of the ruleset: a word that encoding cannot represent (a capitalised letter may leave a legacy code page)
+                # cannot be in it; everything else is, in the same order.  With --size the unrepresentable words may or may not count towards N
+                def fits(w):
+                    try:
+                        w.encode(disk.encoding); return True
+                    except UnicodeEncodeError:
+                        return False
+                full = U if n is None else U[:n]
+                want_file = ''.join(w + '\n' for w in full if fits(w))
+                alt_file = want_file if n is None else ''.join(w + '\n' for w in [w for w in U if fits(w)][:n])
+                if got_file != want_file and got_file != alt_file:
+                    run.violation(f'prince_ling.py -o FILE {sz}: the file differs from what is written to stdout', case, observed=(got_file or '')[:150], expected=want_file[:150]); return
+                if want_file != want:
+                    run.ev('cli_files_with_unrepresentable_words_left_out')
                 if out2.strip():
                     run.violation('prince_ling.py -o FILE still wrote to stdout', case, observed=out2[:100].decode('utf-8', 'replace')); return
                 run.ev('cli_file_equals_stdout')
@@ -152,6 +180,10 @@ def run(run, rng):
     run.exhaustive = True
     run.extra['exhaustive_scope'] = 'every N in 1..total+2 for explored rulesets with total <= 400 words (thorough <= 1500)'
     run.assumptions = ['the unbounded in-process list is the reference for --size (it is itself compared with the reference language)', 'word lists <= 5000 words']
+    if run.shard[0] == 0 or run.tier == 'thorough':
+        for enc_ in (None, None, 'utf-8-sig'):
+            run.ev('legacy_code_page_cases')
+            run.guard(legacy_prince_case(rng, enc_), check_case, run.tier, seconds=300)
     for i in range(N[run.tier]):
         run.guard(gen_case(rng), check_case, run.tier, seconds=300)
 
